@@ -240,7 +240,7 @@ Holds(c, step, g, g2) ==
           LET delta == Bal(post, u, d) - Bal(pre, u, d)
               fee   == FeeOf(step)
               feeD  == IF fee.d = d THEN fee.n ELSE 0
-          IN IF ~ok \/ ~IsMsg(m) \/ u # m.by THEN delta = 0
+          IN IF ~ok \/ ~IsMsg(m) \/ m.a = "UpdateParams" \/ u # m.by THEN delta = 0
              ELSE CASE m.a \in {"CreateFixed", "CreateBatch"} ->
                          delta = -(feeD + IF d = m.sellDenom THEN m.sellAmt ELSE 0)
                     [] m.a = "Bid" ->
